@@ -112,7 +112,16 @@ def generate(c: Contract) -> Generated:
                     cond = ex.spec_bool(entry, src, entry_env)
                     ex.oblige(o.st, "raises", f"{exc}.not-returned", z3.Not(cond), None,
                               f"must raise {exc} when: {src}")
+            elif o.exc == "SystemExit" and c.on_exit:
+                env = dict(entry_env)
+                env["exit_code"] = o.st.env.get("$exit_code", T.mk_int(0))
+                for lab, src in c.on_exit:
+                    goal = ex.spec_bool(o.st, src, env, old_state=entry)
+                    ex.oblige(o.st, "on-exit", lab, goal, None, src)
             else:
+                for lab, src in c.on_raise:
+                    goal = ex.spec_bool(o.st, src, entry_env, old_state=entry)
+                    ex.oblige(o.st, "on-raise", f"{lab}[{o.exc}]", goal, None, src)
                 if o.exc in c.raises:
                     cond = ex.spec_bool(entry, c.raises[o.exc], entry_env)
                     ex.oblige(o.st, "raises", f"{o.exc}.only-when", cond, None,
